@@ -128,7 +128,8 @@ def _get_unit_operation_targets(zone: Zone):
             z: Zone
             for z in zone.subzones.values():
                 if z.identifier == ZoneType.O.value:
-                    compute_direct_integration_targets(z)
+                    # operations nested inside this sub-operation are targeted as well
+                    _get_unit_operation_targets(z)
                 else:
                     raise ValueError("Invalid zone nesting. Unit operation zones can only contain other operation zones.")
 
